@@ -45,7 +45,8 @@ RULE = (
 ASSUMPTIONS = [
     "'fresh' is the tool's own from-scratch scan_path of the same tree in the same configuration, so the check does not depend on what the right measurements are",
     "altered cache entries never keep a matching checksum together with different stored numbers (no cache could detect that)",
-    "scan / report / findings are invoked in-process the way codelimit.__main__ does (Configuration reset, options, Configuration.load)",
+    "scan / report / findings run in-process through their entry functions in codelimit.__main__ (Configuration reset first)",
+    "which files a scan re-analyses is observed at Scanner._analyze_file through a signature-agnostic probe; when that private function is gone or silent the observation is skipped (labelled) and the report comparison alone decides",
 ]
 FLOOR = {"quick": 300, "thorough": 8000}
 
